@@ -94,4 +94,20 @@ CHECKS = {
                 "Non-trivial: MISMATCH with >=9 bytes, WELLFORMED, or clear flag with differing secrets.",
         "assumptions": COMMON_ASSUME + ["bodies whose argument length octets are not all present are GREY (DESIGN.md C19)"],
     },
+    "C17": {
+        "quick": 2000, "thorough": 80000,
+        "rule": "rapid draws a schedule: 0..5 scripted connections, per connection a script of complete packets (spread over 1..3 reads "
+                "or one byte per read, handler optionally held), a partial packet (1..19 bytes, one byte per read, then the read "
+                "deadline is made to expire) or EOF; a cancellation point (before the first accept, inside Accept just before it "
+                "hands out a chosen connection, while all reads are parked, while a held handler runs, at the end); GOMAXPROCS 1/2/"
+                "default. The scripted listener/connections/handler own the schedule and stamp every Accept, SetDeadline, Read, "
+                "Write, Close, handler begin/end and Serve's return. Oracles on the stamps: listener closed before Serve returns; "
+                "every accepted connection closed and every handler finished before Serve returns, no activity after; every Read "
+                "preceded by a finite deadline armed since the last packet; deadline not re-armed >=3 times within one packet; a "
+                "stalled partial packet is closed on expiry and reaches no handler; Serve returns once Accept and all reads timed "
+                "out (watchdog 30 s => inconclusive, never a violation). Non-trivial: cancel while >=1 connection is open "
+                "(in-accept/parked/in-handler) or a mid-packet stall.",
+        "assumptions": COMMON_ASSUME + ["deadline expiry is injected by the scripted connection (only honoured if a non-zero deadline is armed); 15 s / 10 s constants are not waited for",
+                                         "unbounded liveness is out of reach; bounded liveness under the owned schedule is checked"],
+    },
 }
